@@ -59,11 +59,11 @@ def lib_np_diff(e, st, a, kw, n):
 
 
 def lib_np_all(e, st, a, kw, n):
-    return e.bool_reduce(a[0], "all") if isinstance(a[0], VBoolSeq) else VBool(e.truth(a[0]))
+    return e.bool_reduce(a[0], "all") if isinstance(a[0], (VBoolSeq, VBoolMat)) else VBool(e.truth(a[0]))
 
 
 def lib_np_any(e, st, a, kw, n):
-    return e.bool_reduce(a[0], "any") if isinstance(a[0], VBoolSeq) else VBool(e.truth(a[0]))
+    return e.bool_reduce(a[0], "any") if isinstance(a[0], (VBoolSeq, VBoolMat)) else VBool(e.truth(a[0]))
 
 
 def lib_np_sort(e, st, a, kw, n):
